@@ -35,8 +35,11 @@ REQUIRED = {"rows_rederived": 20000, "programs": 60, "cases:tempered": 20, "case
 
 def jobs(tier, seed):
     n_jobs = 16 if tier == "quick" else 32
-    return [{"name": f"rec-{j}", "seed": seed, "j": j, "n_programs": 24 if tier == "quick" else 90,
+    out = [{"name": f"rec-{j}", "seed": seed, "j": j, "n_programs": 24 if tier == "quick" else 90,
              "n_twins": 6 if tier == "quick" else 20, "n_pt": 2 if tier == "quick" else 6} for j in range(n_jobs)]
+    if tier == "thorough":
+        out.append({"name": "repo-tests", "seed": seed, "j": 999, "mode": "repo_tests"})
+    return out
 
 
 def make_target(rng, d):
@@ -176,6 +179,10 @@ def build(kind, target, tkind, d, rng, T, bounded, seed, shared=None):
 
 
 def run_job(job, rec):
+    if job.get("mode") == "repo_tests":
+        from vmon import repotests
+
+        return repotests.run(rec, ID)
     rng = mk_rng(job["seed"], "C03", job["j"])
 
     # ------------------------------------------------ invariant along call programs
